@@ -23,6 +23,7 @@ RULE = (
     "None-valued one preferred) is returned with its value and fires no policy. Non-trivial: an "
     "entry point or a selection is configured; distinct = (program shape, configuration)."
     ' Run-time selections are given as list or tuple; a plain input named in the selection (list, tuple, str, alone or next to an output) must be rejected or at least never returned.'
+    ' Also: the unproduced name inside selections that list several or EVERY output of the graph (both orders) under all three on_missing policies.'
 )
 ASSUMPTIONS = ["'downstream' is computed on the program spec, independently of the library's own graph"]
 DECIDING = ["runs_checked", "keys_checked"]
